@@ -1393,6 +1393,8 @@ ecdsa_verify(ec_curve_p curve, bn_p hash, bn_p sign_r, bn_p sign_s,
 	    NULL == sign_r || NULL == sign_s ||
 	    NULL == pub_key)
 		return (EINVAL);
+	if (0 != ec_point_is_at_infinity(pub_key)) /* O is not a public key. */
+		return (EINVAL);
 	if (bn_cmp(sign_r, &curve->n) >= 0 ||
 	    bn_cmp(sign_s, &curve->n) >= 0) /* sign_r and sign_s check. */
 		return (EINVAL);
